@@ -74,10 +74,10 @@ func TestC06(t *testing.T) {
 	defer r.Finish()
 	r.SetRule("inputs: (a) every sequence of up to L lexemes over a 31-lexeme type-system alphabet (" + strings.Join(c06Alphabet, " ") + ") plus viable-prefix extensions by one lexeme; " +
 		"(b) per definition kind, a fixed head (e.g. `type a`, `extend input a`, `directive @ a`) followed by every sequence of up to M lexemes over a 12-lexeme sub-alphabet, plus viable-prefix extensions; " +
-		"(c) G3 type-system trees rendered three ways; (d) single-lexeme mutants; (e) near-miss catalogue; (f) built-in flag: every generated document parsed with Source.BuiltIn true and false. " +
+		"(c) G3 type-system trees rendered three ways; (d) single-lexeme mutants; (e) near-miss catalogue and wide/deep members of the grammar (15 kinds x 35 sizes up to 4097); (f) built-in flag: every generated document parsed with Source.BuiltIn true and false. " +
 		"oracle: accepted <=> derivable per the reference recogniser; on acceptance the projected document equals the reference tree. non-trivial = accepted, or rejected with a viable longest proper prefix; distinct by text")
 	r.Assume("reference recogniser in harness/ref (self-tested against parser/schema_test.yml) encodes the October 2021 type-system grammar incl. extensions")
-	for _, c := range []string{"enum", "near", "tree", "mutant", "builtin"} {
+	for _, c := range []string{"enum", "near", "wide", "tree", "mutant", "builtin"} {
 		kit.RegisterReplayer("C06", c, func(raw json.RawMessage) string { return parseReplay("C06", true, raw) })
 	}
 	for _, s := range c06Subs {
@@ -100,6 +100,27 @@ func TestC06(t *testing.T) {
 			r.Violation("near", inputCase{in}, "%s", v)
 		}
 		r.End()
+	}
+	for _, kind := range gen.WideSchemaKinds {
+		for _, n := range gen.WideSizes {
+			if strings.HasPrefix(kind, "d-") && n > 1100 {
+				continue
+			}
+			in := gen.WideSchema(kind, n)
+			r.Begin("wide", func() interface{} { return inputCase{in} })
+			v, info := c06Eval(r, in)
+			r.Case(true, sprintf("wide:%s:%d", kind, n))
+			r.Class("wide:" + kind)
+			if !info.Accepted {
+				r.End()
+				r.HarnessErrorf("wide family member %s/%d is not derivable for the reference", kind, n)
+				return
+			}
+			if v != "" {
+				r.Violation("wide", inputCase{in}, "%s", v)
+			}
+			r.End()
+		}
 	}
 	evalSeq := func(text string, n int) (string, bool, bool) {
 		v, info := c06Eval(r, text)
